@@ -22,7 +22,7 @@ func init() {
 			"IsSmartContractOnMetachain returns true only under IsSmartContractAddress. R3: the merge functions never store through, map-write into, append onto or big.Int-mutate anything rooted at the merged-in parameter, and never assign a pointer/slice " +
 			"taken from the parameter to a field of the receiver that they later mutate in place (BalanceDelta, OutputTransfers). R4: SafeSubUint64 returns the error exactly under a < b and a - b otherwise. R5: the address classifiers read exactly the byte ranges their constants document — contract: [0, NumInit-VMTypeLen) (plus the whole-address emptiness test), " +
 			"metachain contract: [NumInit, NumInit+15) — so that classification never depends on the VM-type bytes. R6: every path through MergeOutputAccounts reads Nonce, BalanceDelta, StorageUpdates and OutputTransfers of the merged-in account (a path that returns " +
-			"without reading a field cannot keep the highest nonce / add the delta / let later updates win / append the new transfers). R2 also: no loop folds the bytes of its parameter into a fixed-width word without a length bound. R3 also: a module object found in the result's own collections (possibly adopted by pointer from an account merged in earlier) is never rewritten in place. R7: the merged transfer list is the own list followed by the tail of the other from the own length on. Does NOT decide: the merge laws as equations, " +
+			"without reading a field cannot keep the highest nonce / add the delta / let later updates win / append the new transfers). R2 also: no loop folds the bytes of its parameter into a fixed-width word without a length bound. R3 also: a module object found in the result's own collections (possibly adopted by pointer from an account merged in earlier) is never rewritten in place. R7: the merged transfer list is the own list followed by the tail of the other from the own length on. R8: every turn of the loop over the merged-in storage updates stores that turn's (key, update) before the next turn or a return, and nothing is deleted from an update map below the merge. Does NOT decide: the merge laws as equations, " +
 			"exhaustive byte-pair round trips as executions, the classification of concrete addresses.",
 		Trusted: []string{"A-len"},
 		Rules:   []func(*Ctx){c20r1, c20r2, c20r3, c20r4, c20r5, c20r6, c20r7, c20r8},
